@@ -528,6 +528,19 @@ def parse_mir(text):
             _add(items, order, f)
             i = j + 1
             continue
+        m_anon = re.match(r'^([A-Za-z_][\w:<>{}#, ]*::\{constant#\d+\})\s*:\s*.*=\s*\{\s*$', line)
+        if m_anon:
+            # anonymous constant item (e.g. the accessor of a `thread_local!`): NAME::{constant#0}: TYPE = { body }
+            j = i + 1
+            while j < n and lines[j] != '}':
+                j += 1
+            try:
+                f = _parse_item('const', 'const ' + line, lines[i + 1:j], i + 1)
+                _add(items, order, f)
+            except MirParseError:
+                pass          # kept out of the program: a use of it is reported as an unknown constant / callee
+            i = j + 1
+            continue
         raise MirParseError('unexpected top-level line %d: %r' % (i + 1, line[:160]))
     return items, order
 
